@@ -94,3 +94,66 @@ func (db *DB) releaseSharedSession(s *Session) {
 		delete(db.advShared[k], s)
 	}
 }
+
+// ---------------------------------------------------------------------------- FIFO wait queue of advisory locks
+//
+// Postgres grants a released lock to the waiters in arrival order: a session that asks for the lock while another
+// session is already parked on it queues BEHIND that session, even if the lock happens to be free at that instant
+// (the parked session has not run again yet).  Without this a client that loops "abort, retry, take the lock
+// again" can starve a parked session for ever, which no real server allows.
+
+// advEnqueue records that s waits for key (idempotent). The entry is removed when s obtains the lock or when the
+// waiting statement ends for another reason (finishStmt -> advLeaveQueues).
+func (db *DB) advEnqueue(s *Session, key int64) {
+	if s.advWait == nil {
+		s.advWait = map[int64]bool{}
+	}
+	s.advWait[key] = true
+	if db.advQueue == nil {
+		db.advQueue = map[int64][]*Session{}
+	}
+	for _, x := range db.advQueue[key] {
+		if x == s {
+			return
+		}
+	}
+	db.advQueue[key] = append(db.advQueue[key], s)
+}
+
+// advDequeue removes s from the queue of key (it obtained the lock, or gave up).
+func (db *DB) advDequeue(s *Session, key int64) {
+	delete(s.advWait, key)
+	q := db.advQueue[key]
+	for i, x := range q {
+		if x == s {
+			db.advQueue[key] = append(q[:i:i], q[i+1:]...)
+			return
+		}
+	}
+}
+
+// advAhead returns a live session queued before s on key (nil if s is first or not preceded).
+func (db *DB) advAhead(s *Session, key int64) *Session {
+	q := db.advQueue[key]
+	for i := 0; i < len(q); i++ {
+		x := q[i]
+		if x == s {
+			return nil
+		}
+		if x.closed {
+			db.advQueue[key] = append(q[:i:i], q[i+1:]...)
+			q = db.advQueue[key]
+			i--
+			continue
+		}
+		return x
+	}
+	return nil
+}
+
+// advLeaveQueues: the statement of s that was waiting for advisory locks is over.
+func (db *DB) advLeaveQueues(s *Session) {
+	for k := range s.advWait {
+		db.advDequeue(s, k)
+	}
+}
